@@ -9,7 +9,10 @@ use proptest::prelude::*;
 use serde::{Deserialize, Serialize};
 
 /// A piecewise function described by plain data.
-/// kind 0: tag pieces `Poly0(i)`; 1: `Poly1`; 2: `Poly3`; 3: `Log<Poly2>`; 4: `IntOfLogPoly4`.
+/// kind 0: tag pieces `Poly0(i)`; 1: `Poly1`; 2: `Poly3`; 3: `Log<Poly2>`; 4: `IntOfLogPoly4`;
+/// 5..=8: functions that come out of other library operations built on the same ends (COMPOSITION:
+/// `linear`, `constrained_spline`, `Piecewise::integral`, `&f + &g`); the oracle always uses the ends
+/// of the function that was actually built.
 #[derive(Clone, Debug, Hash, Serialize, Deserialize)]
 pub struct PwSpec {
     pub kind: u8,
@@ -18,13 +21,24 @@ pub struct PwSpec {
     pub pool: Vec<B>,
 }
 
-pub const KIND_NAMES: [&str; 5] = ["tag-Poly0", "Poly1", "Poly3", "Log<Poly2>", "IntOfLogPoly4"];
+pub const NKINDS: u8 = 9;
+pub const KIND_NAMES: [&str; 9] = [
+    "tag-Poly0",
+    "Poly1",
+    "Poly3",
+    "Log<Poly2>",
+    "IntOfLogPoly4",
+    "composed: output of linear()",
+    "composed: output of constrained_spline()",
+    "composed: Piecewise<Log<Poly4>>::integral()",
+    "composed: &f + &g",
+];
 
 impl PwSpec {
     pub fn ends_f(&self) -> Vec<f64> {
         self.ends.iter().map(|b| b.0).collect()
     }
-    fn num(&self, i: usize, j: usize) -> f64 {
+    pub fn num(&self, i: usize, j: usize) -> f64 {
         if self.pool.is_empty() {
             return (i + j) as f64;
         }
@@ -88,21 +102,79 @@ pub trait PwVisitor {
     fn visit<T: Evaluate + Clone + std::fmt::Debug + 'static>(&mut self, pw: &Piecewise<T>, is_tag: bool) -> Self::Out;
 }
 pub fn visit_pw<V: PwVisitor>(spec: &PwSpec, v: &mut V) -> V::Out {
-    match spec.kind % 5 {
+    let ends = spec.ends_f();
+    match spec.kind % NKINDS {
         0 => v.visit(&spec.tag(), true),
         1 => v.visit(&spec.p1(), false),
         2 => v.visit(&spec.p3(), false),
         3 => v.visit(&spec.l2(), false),
-        _ => v.visit(&spec.q4(), false),
+        4 => v.visit(&spec.q4(), false),
+        5 => {
+            // linear() through knots at (first end - 1) and every end; ordinates from the pool
+            if ends.iter().all(|e| e.is_finite()) {
+                let mut knots = vec![Knot::new(ends[0] - ends[0].abs().max(1.0), spec.num(0, 1))];
+                knots.extend(ends.iter().enumerate().map(|(i, &e)| Knot::new(e, spec.num(i, 0))));
+                if knots.iter().all(|k| k.x.is_finite() && k.y.is_finite()) {
+                    if let Ok(pw) = crate::runner::lib(|| linear(&knots)) {
+                        return v.visit(&pw, false);
+                    }
+                }
+            }
+            v.visit(&spec.tag(), true)
+        }
+        6 => {
+            // constrained_spline() through the distinct finite ends (needs >= 3 strictly increasing knots)
+            let mut xs: Vec<f64> = Vec::new();
+            for &e in &ends {
+                if e.is_finite() && xs.last().map_or(true, |l| *l < e) {
+                    xs.push(e);
+                }
+            }
+            if xs.len() >= 2 {
+                let mut knots = vec![Knot::new(xs[0] - xs[0].abs().max(1.0), spec.num(0, 1))];
+                knots.extend(xs.iter().enumerate().map(|(i, &e)| Knot::new(e, spec.num(i, 0))));
+                if knots.iter().all(|k| k.x.is_finite() && k.y.is_finite()) && knots[0].x < knots[1].x {
+                    if let Ok(pw) = crate::runner::lib(|| constrained_spline(&knots)) {
+                        return v.visit(&pw, false);
+                    }
+                }
+            }
+            v.visit(&spec.tag(), true)
+        }
+        7 => {
+            // the integral of a Piecewise<Log<Poly4>> (gives quartic log-integral pieces)
+            if ends.iter().all(|e| e.is_finite() && *e > 0.0) {
+                let f = Piecewise {
+                    segments: ends
+                        .iter()
+                        .enumerate()
+                        .map(|(i, &e)| Segment { end: e, poly: Log(Poly4([spec.num(i, 0), spec.num(i, 1), spec.num(i, 2), spec.num(i, 3), spec.num(i, 4)])) })
+                        .collect::<Vec<_>>(),
+                };
+                if let Ok(pw) = crate::runner::lib(|| f.integral(Knot::new(ends[0] * 0.5, spec.num(0, 5)))) {
+                    return v.visit(&pw, false);
+                }
+            }
+            v.visit(&spec.tag(), true)
+        }
+        _ => {
+            // &f + &g: f on all ends, g on every other end
+            let f = spec.q4();
+            let g = Piecewise { segments: f.segments.iter().cloned().enumerate().filter(|(i, _)| i % 2 == 0).map(|(_, s)| s * 0.5).collect::<Vec<_>>() };
+            match crate::runner::lib(|| &f + &g) {
+                Ok(pw) => v.visit(&pw, false),
+                Err(_) => v.visit(&spec.tag(), true),
+            }
+        }
     }
 }
 
 pub fn pw_spec(max_len: usize) -> BoxedStrategy<PwSpec> {
-    let kind = prop_oneof![5 => Just(0u8), 1 => Just(1u8), 1 => Just(2u8), 1 => Just(3u8), 1 => Just(4u8)];
+    let kind = prop_oneof![8 => Just(0u8), 1 => Just(1u8), 1 => Just(2u8), 1 => Just(3u8), 1 => Just(4u8), 1 => Just(5u8), 1 => Just(6u8), 1 => Just(7u8), 1 => Just(8u8)];
     let long = (max_len * 5).max(100);
     (kind, any::<bool>(), gen::ends_long(max_len, long, false), gen::ends(max_len, true), vec(gen::moderate(20), 7))
         .prop_map(|(kind, positive, e_any, e_pos, pool)| {
-            let ends = if positive && kind >= 3 { e_pos } else { e_any };
+            let ends = if (positive && (kind == 3 || kind == 4)) || kind == 7 { e_pos } else { e_any };
             PwSpec { kind, ends: ends.into_iter().map(B).collect(), pool: pool.into_iter().map(B).collect() }
         })
         .boxed()
